@@ -191,6 +191,18 @@ def build_cases(ck, wd, cfg):
                         srcs += [os.path.join(TESTDATA, n) for n in (["Ni.stru"] if quick else ["Ni.stru", "PbTe.cif", "bucky.xyz", "arginine.pdb", "BubbleRaftShort.xcfg", "Ni-discus.stru"])]
                 for src in srcs:
                     add(["%s..%s" % (i, o), src], "ok", "valid %s -> %s" % (i, o))
+    # 1b. untitled inputs: Structure.read() names an untitled structure after the file, readStr() cannot; every
+    #     output format (several print the title) must equal the in-process read(file) + writeStr byte for byte
+    s0 = make_structure(0)
+    s0.title = ""
+    for i in ("rawxyz", "xyz"):
+        if i in infmts and i in outfmts:
+            p = os.path.join(wd, "untitled_sample.%s" % i)
+            with open(p, "w", encoding="utf-8") as fh:
+                fh.write(s0.writeStr(i))
+            for o in outfmts:
+                add(["%s..%s" % (i, o), p], "ok", "untitled %s file -> %s" % (i, o))
+            add(["auto..xyz", p], "ok", "untitled %s file via auto -> xyz" % i)
     # 2. standard input
     for i in infmts:
         f = files.get((0, i)) or files.get((0, "pdffit"))
@@ -355,6 +367,11 @@ def replay_record(case, wd, r, extra):
                     pass
             elif os.path.isdir(a):
                 files[rel + "/"] = ""
+        elif os.path.isabs(a) and os.path.isfile(a) and os.path.getsize(a) < 2000000:
+            # a file of the tree under examination (tests/testdata): carried along so that the replay does not depend on it
+            rel = "ext/" + os.path.basename(a)
+            files[rel] = base64.b64encode(open(a, "rb").read()).decode()
+            argv.append("@DIR@/" + rel)
         else:
             argv.append(a)
     d = {"kind": "command", "argv": argv, "files": files,
@@ -364,6 +381,69 @@ def replay_record(case, wd, r, extra):
                       "stderr": r["stderr"][-600:].decode("utf-8", "replace")}}
     d.update(extra)
     return d
+
+
+def default_cfg():
+    import diffpy.structure.parsers as P
+
+    return {"inFormats": P.inputFormats(), "outFormats": P.outputFormats(), "shortOpts": "hV", "longOpts": ["help", "version"],
+            "sep": "..", "handler_table": {}}
+
+
+def version_bytes():
+    import diffpy.structure
+
+    return ("diffpy.structure %s\n" % diffpy.structure.__version__).encode()
+
+
+def model_disagreements(m, r, lo, cfg, notes=None):
+    """model prediction `m` (parsed driver line) against the observed behaviour `r`; `lo` = library outcome"""
+    real = classify_real(r)
+    dis = []
+    if "bad" in m:
+        return ["model returned %r" % m["bad"]]
+    if int(m["status"]) != real["status"]:
+        dis.append("status: model %s, implementation %d" % (m["status"], real["status"]))
+    if (m["tb"] == "1") != real["tb"]:
+        dis.append("traceback: model %s, implementation %s" % (m["tb"], real["tb"]))
+    if m["tb"] == "0" and int(m["stderr"]) != real["errlines"]:
+        dis.append("stderr lines: model %s, implementation %d" % (m["stderr"], real["errlines"]))
+    so = r["stdout"]
+    if m["stdout"] == "text":
+        if lo[2] is None or so != lo[2].encode("utf-8"):
+            dis.append("stdout is not the library text")
+    elif m["stdout"] == "empty":
+        if so:
+            dis.append("stdout: model empty, implementation %d bytes" % len(so))
+    elif m["stdout"] == "usage":
+        t = so.decode("utf-8", "replace")
+        if not (t.startswith("Translate structure file") and " ".join(cfg["inFormats"]) in t and " ".join(cfg["outFormats"]) in t):
+            dis.append("stdout is not the usage text with the format lists")
+    elif m["stdout"] == "brief":
+        t = so.decode("utf-8", "replace")
+        # (the source prints docstring line 1, which is blank, instead of the `Usage:` line — cosmetic, outside the property)
+        if not (t.count("\n") == 2 and "--help' for more information" in t.split("\n")[1]):
+            dis.append("stdout is not the brief usage")
+        elif notes is not None and not t.startswith("Usage:") and not any("brief usage" in n for n in notes):
+            notes.append("cosmetic: the brief usage (no arguments) prints %r as its first line instead of the 'Usage:' line" % t.split("\n")[0])
+    elif m["stdout"] == "version":
+        if so != version_bytes():
+            dis.append("stdout is not the version line")
+    return dis
+
+
+def parse_model(o):
+    return dict(kv.split("=") for kv in o.split()) if o.startswith("stdout=") else {"bad": o}
+
+
+def model_line(lo, argv):
+    return "cli.main %s %s %s" % (lo[0], lo[1], " ".join(hexarg(a) for a in argv))
+
+
+def inject_disagrees(m, r):
+    real = classify_real(r)
+    return ("bad" in m or int(m["status"]) != real["status"] or (m["tb"] == "1") != real["tb"] or
+            (m["tb"] == "0" and int(m["stderr"]) != real["errlines"]) or (m["stdout"] == "empty") != (not r["stdout"]))
 
 
 def run(ck):
@@ -393,8 +473,7 @@ def _run(ck, facts, ok, info, wd):
         # fall back on the committed shape for generating cases; the obligation `recognised` fails
         ck.notes.append("translator did not recognise main(): %s" % facts["unrecognised"])
         import diffpy.structure.parsers as P
-        cfg = {"inFormats": P.inputFormats(), "outFormats": P.outputFormats(), "shortOpts": "hV", "longOpts": ["help", "version"], "sep": "..",
-               "handler_table": {}}
+        cfg = default_cfg()
     else:
         cfg = facts
     universe = set(cfg["handler_table"]) | {"Exception"}
@@ -408,7 +487,7 @@ def _run(ck, facts, ok, info, wd):
         reals = list(ex.map(lambda c: run_cmd(c["argv"], c["stdin"], wd), cases))
     # library outcome + model prediction
     libs = [library_outcome(c["argv"], c["stdin"], universe, cfg) for c in cases]
-    lines = ["cli.main %s %s %s" % (lo[0], lo[1], " ".join(hexarg(a) for a in c["argv"])) for c, lo in zip(cases, libs)]
+    lines = [model_line(lo, c["argv"]) for c, lo in zip(cases, libs)]
     # fault injection over the exception universe
     inj = []
     kinds = sorted(universe - {"Exception"}) + ["Exception"]
@@ -425,7 +504,7 @@ def _run(ck, facts, ok, info, wd):
     inj_lines = ["cli.main %s %s %s" % ("exc:" + k if w == "read" else "ok", "exc:" + k if w == "write" else "ok", " ".join(hexarg(a) for a in argv))
                  for k, w, argv in inj]
     out = common.driver(lines + inj_lines)
-    model = [dict(kv.split("=") for kv in o.split()) if o.startswith("stdout=") else {"bad": o} for o in out]
+    model = [parse_model(o) for o in out]
 
     import diffpy.structure
 
@@ -437,40 +516,8 @@ def _run(ck, facts, ok, info, wd):
         ck.coverage["traces_validated_against_impl"] += 1
         real = classify_real(r)
         nontrivial.add((c["cat"], real["status"], real["errlines"], real["tb"], m.get("stdout"), m.get("msg"), lo[0], lo[1]))
-        # (a) model vs implementation
-        dis = []
-        if facts.get("unrecognised"):
-            pass        # no model of this main(): only the property statement is evaluated
-        elif "bad" in m:
-            dis.append("model returned %r" % m["bad"])
-        else:
-            if int(m["status"]) != real["status"]:
-                dis.append("status: model %s, implementation %d" % (m["status"], real["status"]))
-            if (m["tb"] == "1") != real["tb"]:
-                dis.append("traceback: model %s, implementation %s" % (m["tb"], real["tb"]))
-            if m["tb"] == "0" and int(m["stderr"]) != real["errlines"]:
-                dis.append("stderr lines: model %s, implementation %d" % (m["stderr"], real["errlines"]))
-            so = r["stdout"]
-            if m["stdout"] == "text":
-                if lo[2] is None or so != lo[2].encode("utf-8"):
-                    dis.append("stdout is not the library text")
-            elif m["stdout"] == "empty":
-                if so:
-                    dis.append("stdout: model empty, implementation %d bytes" % len(so))
-            elif m["stdout"] == "usage":
-                t = so.decode("utf-8", "replace")
-                if not (t.startswith("Translate structure file") and " ".join(cfg["inFormats"]) in t and " ".join(cfg["outFormats"]) in t):
-                    dis.append("stdout is not the usage text with the format lists")
-            elif m["stdout"] == "brief":
-                t = so.decode("utf-8", "replace")
-                # (the source prints docstring line 1, which is blank, instead of the `Usage:` line — cosmetic, outside the property)
-                if not (t.count("\n") == 2 and "--help' for more information" in t.split("\n")[1]):
-                    dis.append("stdout is not the brief usage")
-                elif not t.startswith("Usage:") and not any("brief usage" in n for n in ck.notes):
-                    ck.notes.append("cosmetic: the brief usage (no arguments) prints %r as its first line instead of the 'Usage:' line" % t.split("\n")[0])
-            elif m["stdout"] == "version":
-                if so != version_text:
-                    dis.append("stdout is not the version line")
+        # (a) model vs implementation (no model of an unrecognised main(): only the property statement is evaluated)
+        dis = [] if facts.get("unrecognised") else model_disagreements(m, r, lo, cfg, ck.notes)
         # (b) the property statement on the implementation
         why = check_category(c["cat"], r, lo[2])
         if why:
@@ -495,8 +542,7 @@ def _run(ck, facts, ok, info, wd):
         ck.coverage["traces_validated_against_impl"] += 1
         real = classify_real(r)
         nontrivial.add(("inject", k, w, real["status"], real["tb"]))
-        if "bad" in m or int(m["status"]) != real["status"] or (m["tb"] == "1") != real["tb"] or \
-                (m["tb"] == "0" and int(m["stderr"]) != real["errlines"]) or (m["stdout"] == "empty") != (not r["stdout"]):
+        if inject_disagrees(m, r):
             ck.fail("model:inject:%s:%s" % (k, w), "injected %s in %s: model %r, implementation %r" % (k, w, m, real),
                     {"kind": "correspondence", "inject": [k, w, argv], "model": m, "model_line": ln,
                      "observed": {"status": r["status"], "stderr": r["stderr"][-400:].decode("utf-8", "replace")}}, no_failing_input=True)
@@ -531,14 +577,52 @@ def _run(ck, facts, ok, info, wd):
 
 
 def replay(path):
+    """Re-execute exactly the recorded case on the tree under examination: 1 if it still fails, 0 if not.
+
+    command records : the command is run again; the property category is evaluated against the in-process
+                      library result, and the observed behaviour against the model regenerated for this tree
+    inject records  : the fault injection is run again and compared with the regenerated model
+    translator      : 1 iff translate/cli.py does not recognise main() of this tree
+    lean-build      : 1 iff DS.Props.C20 does not build against the configuration generated from this tree"""
+    sys.path.insert(0, VERIF)
+    from translate import cli as tcli
+
     rec = json.load(open(path))
-    if rec.get("kind") != "command" and "argv" not in rec:
-        print("not a command replay: %s" % rec.get("what"))
-        return 1
+    key = rec.get("key", "")
+    GEN = os.path.join(LEAN, "DS", "Gen")
+    facts = tcli.main(GEN, common.REPO)
+    unrec = bool(facts.get("unrecognised"))
+    if key.startswith("translator:"):
+        print("translator:", facts.get("unrecognised") or "main() recognised")
+        return 1 if unrec else 0
+    if key == "lean-build":
+        okb, log, failed = common.lake_build(["DS.Props.C20"])
+        print("lake build DS.Props.C20:", "ok" if okb else "FAILED %r" % failed)
+        return 0 if okb else 1
+    cfg = default_cfg() if unrec else facts
+    universe = set(cfg["handler_table"]) | {"Exception"}
     wd = os.path.join(common.WORK, "c20_replay_%d" % os.getpid())
     shutil.rmtree(wd, ignore_errors=True)
     os.makedirs(wd)
     try:
+        if "inject" in rec:
+            k, w, argv = rec["inject"]
+            with open(os.path.join(wd, "inj.xyz"), "w") as f:
+                f.write("1\ninjected\nC 0 0 0\n")
+            argv = [argv[0], "-" if argv[1] == "-" else os.path.join(wd, "inj.xyz")]
+            r = run_injected(k, w, argv, wd)
+            print("injected %s in %s: status %d, stderr %r" % (k, w, r["status"], r["stderr"].decode("utf-8", "replace")[-200:]))
+            if unrec:
+                print("verdict: no model of this main()")
+                return 1
+            ln = "cli.main %s %s %s" % ("exc:" + k if w == "read" else "ok", "exc:" + k if w == "write" else "ok", " ".join(hexarg(a) for a in argv))
+            m = parse_model(common.driver([ln])[0])
+            bad = inject_disagrees(m, r)
+            print("model:", m, "->", "disagrees" if bad else "agrees")
+            return 1 if bad else 0
+        if "argv" not in rec:
+            print("no input in this replay: %s" % rec.get("what"))
+            return 1
         for rel, b in rec.get("files", {}).items():
             p = os.path.join(wd, rel)
             if rel.endswith("/"):
@@ -554,13 +638,20 @@ def replay(path):
         print("status:", r["status"])
         print("stdout (%d bytes): %r" % (len(r["stdout"]), r["stdout"][:200]))
         print("stderr:", r["stderr"].decode("utf-8", "replace")[-800:])
-        text = None
-        if rec.get("category") == "ok":
-            from translate import cli as tcli
-            facts = tcli.resolve(tcli.analyse(os.path.join(common.REPO, "src/diffpy/structure/apps/transtru.py")), common.REPO)
-            text = library_outcome(argv, stdin, set(facts["handler_table"]), facts)[2]
-        why = check_category(rec.get("category", "any"), r, text)
-        print("verdict:", why or "conforms to the property")
-        return 1 if why else 0
+        lo = library_outcome(argv, stdin, universe, cfg)
+        why = check_category(rec.get("category", "any"), r, lo[2])
+        print("property statement:", why or "conforms")
+        dis = []
+        if not unrec:
+            m = parse_model(common.driver([model_line(lo, argv)])[0])
+            dis = model_disagreements(m, r, lo, cfg)
+            print("model %r: %s" % (m, "; ".join(dis) or "agrees"))
+        return 1 if (why or dis) else 0
     finally:
+        for root, dirs, fs in os.walk(wd):
+            for f in fs:
+                try:
+                    os.chmod(os.path.join(root, f), 0o600)
+                except OSError:
+                    pass
         shutil.rmtree(wd, ignore_errors=True)
